@@ -23,6 +23,23 @@
               readLastOrdinaryCommitted): newest ordinary row under the live committed watermark.
      Last     pkg/cluster/channels Service.ReadChannelLastVisible (readLocalLastVisible; exported,
               no caller left inside the repository).
+     Read     layer "fwd": Service.ReadCommittedBatch issued on a NON-leader node: the origin sends
+              its own view of the authoritative record (RetentionThroughSeq, MinISR, leader, epochs)
+              to the leader (ForwardCommittedReads -> handleForwardCommittedReads), whose own
+              metadata lookup either answers (floor = max of both records, the leader's MinISR) or
+              answers not-found (fallback branch: the origin's floor and the origin's MinISR).
+     SyncF    ChannelMessageReader.SyncMessages on a non-leader node (the page is read through the
+              forwarded committed read; the SyncOnce filter runs on the origin).
+     HeadF    Service.ReadConversationHead / ReadConversationHeads issued on a non-leader node
+              (ForwardLastVisible with HeadUID -> handleForwardLastVisible, and
+              ForwardConversationHeads -> handleForwardConversationHeads), same two lookup modes.
+
+   cfg.pre = [n, c, b, k] describes the store the leader's runtime is LOADED from (reactor
+   completeApplyMetaStoreLoad): n durable rows, checkpointed watermark c, adopted boundary b
+   (announced by the metadata record as well), row k a SyncOnce row (0 = none); n = 0 is a fresh
+   channel.  This is the state a leader is in after its own lifecycle checkpoint and a reload: a
+   durable tail above the checkpointed watermark, which the retention-owned checkpoint alone
+   (checkpoint = boundary) never produces.
 
    `match` is a partial function: match[f] = 0 means the leader knows no progress of f
    (machine.ChannelState.Progress has no entry; entries are created by the first
@@ -40,6 +57,9 @@ CONSTANTS
   ISRs,             \* ISR sets tried (each contains 1)
   MinISRs,          \* MinISR values tried
   Stores,           \* subset of {"memory", "messagedb"}
+  FwdModes,         \* forwarded reads tried: "miss" (leader lookup not-found), "old" / "cur" (lookup answers, origin record oldest / current)
+  PreLeos,          \* log lengths of the stores a runtime is loaded from (0 = fresh channel)
+  PreBars,          \* positions tried for the one SyncOnce row of a loaded store (0 = none)
   MaxLeo,           \* bound on the log end
   MaxB,             \* retention boundaries requested / announced are <= MaxB (<= MaxLeo)
   Trims,            \* MaxTrimMessages values tried (0 = unlimited)
@@ -49,10 +69,11 @@ CONSTANTS
   SyncStarts,       \* StartSeq values tried by SyncMessages
   SyncEnds,         \* EndSeq values tried by SyncMessages
   CapZeroUnbounded, \* TRUE: the code's behaviour at committed cap 0 before /repo 8a300f740 (finding, fixed); FALSE: intended
-  LastUncapped      \* TRUE: the code's ReadChannelLastVisible (no committed cap; finding); FALSE: intended
+  LastUncapped,     \* TRUE: the code's ReadChannelLastVisible (no committed cap; finding); FALSE: intended
+  FwdDropsSyncOnce  \* TRUE: the code's forwarded reads (the RPC codec drops Message.SyncOnce; finding); FALSE: intended
 
 VARIABLES
-  cfg,      \* [store, isr, minISR] of this instance
+  cfg,      \* [store, isr, minISR, pre] of this instance
   present,  \* sequences physically present in the store
   bar,      \* present sequences that are SyncOnce / recovery-barrier rows
   leo,      \* log end (store: max(last row, RetainedMaxSeq); reactor LEO)
@@ -78,13 +99,26 @@ Asc(S)    == SetToSortSeq(S, <)
 Desc(S)   == SetToSortSeq(S, >)
 First(q, n) == SubSeq(q, 1, Min2(n, Len(q)))
 
-Init ==
-  /\ cfg \in {c \in [store : Stores, isr : ISRs, minISR : MinISRs] : c.minISR <= Cardinality(c.isr)}
-  /\ present = {} /\ bar = {}
-  /\ leo = 0 /\ lprog = 0 /\ hw = 0 /\ ckpt = 0
+NoPre == [n |-> 0, c |-> 0, b |-> 0, k |-> 0]
+\* Loaded stores tried: boundary <= checkpoint <= log end.  With MinISR <= 1 every durable row is
+\* committed (the read path caps by the log end), so only fully checkpointed stores are tried there:
+\* the runtime's own watermark after a load is the checkpoint.
+PresFor(minISR) ==
+  {p \in [n : PreLeos, c : 0..MaxLeo, b : 0..MaxB, k : PreBars] :
+      /\ p.b <= p.c /\ p.c <= p.n /\ p.k <= p.n
+      /\ (minISR <= 1 => p.c = p.n)}
+Bases == {c \in [store : Stores, isr : ISRs, minISR : MinISRs] : c.minISR <= Cardinality(c.isr)}
+WithPre(c, p) == [store |-> c.store, isr |-> c.isr, minISR |-> c.minISR, pre |-> p]
+
+InitC(c) ==
+  /\ cfg = c
+  /\ present = 1..c.pre.n /\ bar = {c.pre.k} \ {0}
+  /\ leo = c.pre.n /\ lprog = c.pre.n /\ hw = c.pre.c /\ ckpt = c.pre.c
   /\ match = [f \in Followers |-> 0]
-  /\ ret = 0 /\ metaRet = 0 /\ local = 0 /\ phys = 0
-  /\ ev = [a |-> "Init", cfg |-> [store |-> cfg.store, isr |-> Asc(cfg.isr), minISR |-> cfg.minISR]]
+  /\ ret = c.pre.b /\ metaRet = c.pre.b /\ local = c.pre.b /\ phys = 0
+  /\ ev = [a |-> "Init", cfg |-> [store |-> c.store, isr |-> Asc(c.isr), minISR |-> c.minISR, pre |-> c.pre]]
+
+Init == \E c \in Bases : \E p \in PresFor(c.minISR) : InitC(WithPre(c, p))
 
 -------------------------------------------------------------------------------
 \* machine/progress.go AdvanceHW: the MinISR-th highest match among the ISR, never backwards.
@@ -197,28 +231,42 @@ Cap   == IF cfg.minISR <= 1 THEN leo ELSE ckpt
 \* store, which reads it as "no cap": finding C10:committed-cap-zero-passed-to-store-as-unbounded);
 \* unb = FALSE is the intended, and now implemented, behaviour (nothing is visible).  The
 \* deviation stays in the module so that a regression is recognised and named (ev.alt).
-SvcU(from, mx, lim, rev, unb) ==
-  LET mn  == Floor + 1
+SvcF(fl, from, mx, lim, rev, unb) ==
+  LET mn  == fl + 1
       mx1 == IF mx = 0 \/ mx > Cap THEN Cap ELSE mx
   IN IF Cap = 0 /\ ~unb THEN <<>>
      ELSE IF ~rev THEN IF from > Cap THEN <<>> ELSE StoreFwd(from, mn, mx1, lim)
      ELSE StoreRev(IF from > Cap THEN Cap ELSE from, mn, mx1, lim)
+SvcU(from, mx, lim, rev, unb) == SvcF(Floor, from, mx, lim, rev, unb)
 Svc(from, mx, lim, rev) == SvcU(from, mx, lim, rev, CapZeroUnbounded)
 
+\* A read issued on a non-leader node.  The origin resolves the channel, finds another leader and
+\* sends the read together with its own record: retention oret (the metadata source is monotone,
+\* the origin may still hold an older record: oret <= metaRet), MinISR, expected leader and epochs.
+\* handleForwardCommittedReads on the leader: its own lookup answers -> floor = max(oret, its
+\* record, the store-adopted boundary), cap from ITS MinISR; its lookup answers not-found (miss)
+\* and the request names it as leader -> floor = max(oret, store-adopted boundary), cap from the
+\* MinISR the origin sent.  The environment assumption for the fallback is that the origin's
+\* record is current (oret = metaRet); MinISR is a property of the channel, the same in every record.
+FloorF(miss, oret) == IF miss THEN Max2(oret, local) ELSE Max2(Max2(oret, metaRet), local)
+SvcFwd(from, mx, lim, rev, miss, oret) == SvcF(FloorF(miss, oret), from, mx, lim, rev, CapZeroUnbounded)
+
 \* internal/infra/cluster message_reader.go
-SyncReadU(mode, start, end, lim, unb) ==
+\* fl = floor of the service-layer read underneath; keep = FALSE: the SyncOnce filter finds no flag.
+SyncReadG(fl, mode, start, end, lim, unb, keep) ==
   LET rev  == mode = "down" \/ (start = 0 /\ end = 0)
       mx0  == IF mode = "up" /\ end > 0 THEN end - 1
               ELSE IF mode = "down" /\ start > 0 THEN start ELSE Inf
       from == IF rev /\ start = 0 THEN Inf ELSE IF ~rev /\ start = 0 THEN 1 ELSE start
       mx   == IF rev /\ start = 0 THEN Inf ELSE mx0
-      rd   == SvcU(from, mx, lim + 1, rev, unb)
-      vis  == SelectSeq(rd, LAMBDA s : s \notin bar)
+      rd   == SvcF(fl, from, mx, lim + 1, rev, unb)
+      vis  == IF keep THEN SelectSeq(rd, LAMBDA s : s \notin bar) ELSE rd
       flt  == IF end = 0 THEN vis
               ELSE IF mode = "down" THEN SelectSeq(vis, LAMBDA s : s > end)
               ELSE SelectSeq(vis, LAMBDA s : s < end)
       cut  == First(flt, lim)
   IN IF rev THEN Reverse(cut) ELSE cut
+SyncReadU(mode, start, end, lim, unb) == SyncReadG(Floor, mode, start, end, lim, unb, TRUE)
 SyncRead(mode, start, end, lim) == SyncReadU(mode, start, end, lim, CapZeroUnbounded)
 
 Bars(q) == SelectSeq(q, LAMBDA s : s \in bar)
@@ -273,6 +321,39 @@ LastVis(after) ==
             alt |-> LastCode(after)]
   /\ UNCHANGED <<cfg, present, bar, leo, lprog, hw, ckpt, match, ret, metaRet, local, phys>>
 
+\* layer "fwd": the same requests as layer "service", issued on a non-leader node.
+ReadFwd(from, mx, lim, rev, miss, oret) ==
+  /\ rev => from >= 1 /\ mx \in {from, Inf}
+  /\ oret <= metaRet /\ (miss => oret = metaRet)
+  \* The reply travels through the RPC codec of pkg/cluster/channels (codec.go appendMessage /
+  \* readMessage), which does not carry Message.SyncOnce: the origin sees no SyncOnce row (finding
+  \* C10:forwarded-read-drops-sync-once-flag; alt is that deviation, res the intended reply).
+  /\ LET q == SvcFwd(from, mx, lim, rev, miss, oret)
+     IN ev' = [a |-> "Read", layer |-> "fwd", from |-> from, mn |-> 0, mx |-> mx, lim |-> lim, rev |-> rev,
+               miss |-> miss, oret |-> oret,
+               res |-> [seqs |-> q, bars |-> IF FwdDropsSyncOnce THEN <<>> ELSE Bars(q)],
+               alt |-> [seqs |-> q, bars |-> <<>>]]
+  /\ UNCHANGED <<cfg, present, bar, leo, lprog, hw, ckpt, match, ret, metaRet, local, phys>>
+
+\* SyncMessages on a non-leader node.  With the SyncOnce flag lost on the wire the ordinary reader
+\* returns SyncOnce / barrier rows (alt; the finding named above).
+SyncFwd(mode, start, end, lim, miss, oret) ==
+  /\ oret <= metaRet /\ (miss => oret = metaRet)
+  /\ LET fl == FloorF(miss, oret)
+     IN ev' = [a |-> "SyncF", mode |-> mode, start |-> start, end |-> end, lim |-> lim, miss |-> miss, oret |-> oret,
+               res |-> [seqs |-> SyncReadG(fl, mode, start, end, lim, CapZeroUnbounded, ~FwdDropsSyncOnce)],
+               alt |-> [seqs |-> SyncReadG(fl, mode, start, end, lim, CapZeroUnbounded, FALSE)]]
+  /\ UNCHANGED <<cfg, present, bar, leo, lprog, hw, ckpt, match, ret, metaRet, local, phys>>
+
+\* Conversation head read on a non-leader node; batch = ReadConversationHeads.
+HeadFwd(miss, oret, batch) ==
+  /\ oret <= metaRet /\ (miss => oret = metaRet)
+  /\ LET fl == FloorF(miss, oret)
+         h  == Newest({s \in present \ bar : s > fl /\ s <= HeadCap})
+     IN ev' = [a |-> "HeadF", miss |-> miss, oret |-> oret, batch |-> batch,
+               res |-> [found |-> h.found, seq |-> h.seq, committed |-> HeadCap, retention |-> fl]]
+  /\ UNCHANGED <<cfg, present, bar, leo, lprog, hw, ckpt, match, ret, metaRet, local, phys>>
+
 -------------------------------------------------------------------------------
 NAppend == \E k \in {"msg", "bar"} : AppendRow(k)
 NAck    == \E f \in Followers, off \in 0..(leo + 1) : Ack(f, off)
@@ -286,8 +367,18 @@ NSync      == \E mode \in {"up", "down"}, start \in SyncStarts, end \in SyncEnds
 
 NHead      == HeadMsg
 NLast      == \E after \in SyncStarts : LastVis(after)
+\* <<miss, oret>> pairs tried by the exhaustive runs
+FwdArgs == (IF "miss" \in FwdModes THEN {<<TRUE, metaRet>>} ELSE {})
+           \cup (IF "old" \in FwdModes THEN {<<FALSE, 0>>} ELSE {})
+           \cup (IF "cur" \in FwdModes THEN {<<FALSE, metaRet>>} ELSE {})
+NReadFwd   == \E from \in ReadFroms, lim \in Limits, rev \in BOOLEAN, m \in FwdArgs :
+                 \E mx \in (IF rev THEN {from, Inf} ELSE ReadMaxs) : ReadFwd(from, mx, lim, rev, m[1], m[2])
+NSyncFwd   == \E mode \in {"up", "down"}, start \in SyncStarts, end \in SyncEnds, lim \in Limits, m \in FwdArgs :
+                 SyncFwd(mode, start, end, lim, m[1], m[2])
+NHeadFwd   == \E m \in FwdArgs, batch \in BOOLEAN : HeadFwd(m[1], m[2], batch)
 
 Next == NAppend \/ NAck \/ NMeta \/ NApply \/ NReadStore \/ NReadSvc \/ NSync \/ NHead \/ NLast
+          \/ NReadFwd \/ NSyncFwd \/ NHeadFwd
 
 Spec == Init /\ [][Next]_vars
 
@@ -309,8 +400,8 @@ TypeOK ==
 \* The logical boundary below which nothing may be returned: every boundary the channel knows.
 LogicalRet == Max2(ret, Max2(metaRet, local))
 
-Returned == IF ev.a \in {"Read", "Sync"} THEN {ev.res.seqs[i] : i \in DOMAIN ev.res.seqs}
-            ELSE IF ev.a \in {"Head", "Last"} /\ ev.res.found THEN {ev.res.seq} ELSE {}
+Returned == IF ev.a \in {"Read", "Sync", "SyncF"} THEN {ev.res.seqs[i] : i \in DOMAIN ev.res.seqs}
+            ELSE IF ev.a \in {"Head", "HeadF", "Last"} /\ ev.res.found THEN {ev.res.seq} ELSE {}
 
 \* Reads never return a row above the committed watermark or at/below the retention boundary;
 \* the ordinary-message reader never returns a barrier / SyncOnce row.
@@ -318,7 +409,7 @@ C10_ReadWindow ==
   [][ev'.a # "Init" => \A s \in Returned' :
         /\ s > LogicalRet /\ s <= hw
         /\ s \in present
-        /\ ev'.a \in {"Sync", "Head", "Last"} => s \notin bar]_vars
+        /\ ev'.a \in {"Sync", "SyncF", "Head", "HeadF", "Last"} => s \notin bar]_vars
 
 \* No boundary ever moves backwards, whatever is requested.
 C10_Monotone ==
